@@ -71,7 +71,9 @@ func (q *InQueue) waitNonEmtpyQueue() error {
 		return nil
 	}
 
-	wait := make(chan struct{}, 0)
+	// Buffered: the notifier runs while queueMutex is held and must never block, even when the
+	// waiter has already given up because of a deadline
+	wait := make(chan struct{}, 1)
 	q.queueNotifiers = append(q.queueNotifiers, func() {
 		wait <- struct{}{}
 	})
@@ -288,7 +290,9 @@ func (q *OutQueue) waitEmptyQueue() error {
 		return nil
 	}
 
-	wait := make(chan struct{}, 0)
+	// Buffered: the notifier runs while queueMutex is held and must never block, even when the
+	// waiter has already given up because of a deadline
+	wait := make(chan struct{}, 1)
 	q.queueNotifiers = append(q.queueNotifiers, func() {
 		wait <- struct{}{}
 	})
